@@ -83,6 +83,12 @@ M = {
     "sequence-input-elem-dims-dropped": (["C03"], [("src/spox/_public.py",
         "    return model_proto\n",
         "    for _i in model_proto.graph.input:\n        if _i.type.HasField('sequence_type'):\n            _i.type.sequence_type.elem_type.tensor_type.ClearField('shape')\n    return model_proto\n")]),
+    "fix-c-reverted-with-arguments-shares-cache": (["C12"], [("src/spox/_graph.py",
+        "        return replace(self, _arguments=args, _build_result=_build.Cached())",
+        "        return replace(self, _arguments=args)")]),
+    "with-opset-resets-nothing-but-builder-reads-name": (["C12"], [("src/spox/_build.py",
+        "        if not graph.requested_results:",
+        "        if not graph.requested_results or graph._name == '?':")]),
     "renames-restore-to-none": (["C12"], [("src/spox/_public.py",
         "        for arg, name in pre.items():\n            arg._rename(name)",
         "        for arg, name in pre.items():\n            arg._rename(None)")]),
